@@ -440,6 +440,25 @@ def _factory(cx, factory):
                 ok2 = any(s.value.value == "=" for s in eqs)
                 cx.ob("R15f", st, ok2, "(field, value) means equality" if ok2 else "(field, value) is not turned into '='", stmt=norm(st) + " [op]")
     cx.need(n3 and n2, "R15f", factory, "tuple unpacking idiom of the factory not recognised")
+    # the three slots are bound by the unpacking only (plus the constant operator of the 2-tuple form): nothing may turn a
+    # value into an operator / field text or replace the value on the way to the constructor
+    for st in walk_local(factory):
+        tgts = []
+        if isinstance(st, ast.Assign):
+            for t in st.targets:
+                tgts += [x.id for x in ast.walk(t) if isinstance(x, ast.Name)]
+        elif isinstance(st, (ast.AugAssign, ast.AnnAssign)) and isinstance(st.target, ast.Name):
+            tgts = [st.target.id]
+        hit = [t for t in tgts if t in slots3]
+        if not hit:
+            continue
+        if isinstance(st, ast.Assign) and isinstance(st.targets[0], ast.Tuple) and is_name(st.value, params(factory)[1]):
+            continue
+        if isinstance(st, ast.Assign) and len(st.targets) == 1 and is_name(st.targets[0], slots3[1]) and const(st.value, str):
+            continue
+        uses_value = slots3[2] in names_in(st.value) if getattr(st, "value", None) is not None else False
+        cx.ob("R15f", st, False, f"`{norm(st)[:70]}` re-binds {hit} between unpacking and the constructor" +
+              (": an operator / field text is computed from a condition value, which then becomes part of the SQL text instead of a bound parameter" if uses_value and slots3[2] not in hit[:1] or uses_value and len(hit) > 1 else ""))
     last = rets[-1]
     ok = isinstance(last.value, ast.Call) and call_name(last.value) == "SqlFieldValCondition" and len(last.value.args) == 3 and \
         [norm(a) for a in last.value.args][0] == slots3[0] and norm(last.value.args[2]) == slots3[2] and norm(last.value.args[1]) == slots3[1]
